@@ -10,6 +10,7 @@ mod c04;
 mod c05;
 mod c06;
 mod c07;
+mod c08;
 mod c09;
 mod c10;
 mod c11;
@@ -70,6 +71,7 @@ fn main() {
         "C06" => c06::search(&mut rng, budget, &mut fails),
         "C11" => c11::search(&mut rng, budget, &mut fails),
         "C12" => { c12::search(&mut rng, budget, &mut fails); if fails.is_empty() { c11::search(&mut rng, budget / 4, &mut fails); } }
+        "C08" => c08::search(&mut rng, budget, &mut fails),
         "C09" => c09::search(&mut rng, budget, &mut fails),
         "C13" => c13::search(&mut rng, budget, &mut fails),
         "C13-gap" => c13::search_gap(&mut rng, budget, &mut fails, 26 * 3600),
